@@ -273,11 +273,15 @@ class Doc:
             out.append(p + "</if>")
             return out
         if op == "foreach":
-            out = [p + "<foreach array=%s item=%s>" % (quoteattr("[" + ",".join(str(v) for v in i["arr"]) + "]"),
-                                                       quoteattr(i["n"]))]
+            arr_text = self._expr_text(i["e"][0]) if i["e"] else "[" + ",".join(str(v) for v in i["arr"]) + "]"
+            out = [p + "<foreach array=%s item=%s>" % (quoteattr(arr_text), quoteattr(i["n"]))]
             out.extend(self._block_xml(i["blk"], ind + 1))
             out.append(p + "</foreach>")
             return out
+        if op == "send":
+            if i["e"]:
+                return [p + '<send eventexpr=%s target="#_internal"/>' % quoteattr(self._expr_text(i["e"][0]))]
+            return [p + '<send event=%s target="#_internal"/>' % quoteattr(".".join(i["ev"]))]
         if op == "xml":   # literal XML (platform features outside the abstract instruction set)
             return [p + i["tag"]]
         raise ValueError(op)
@@ -784,6 +788,170 @@ def c19_docs(tokens, rng=None, two_token=None, lists=20):
         s.t("*", None)
         d = Doc(ROOT(s), family="c19", name="probe%d:%s" % (i, spell), alphabet=["go"])
         docs.append(d)
+    return docs
+
+
+def c08_block(rng, depth=0, err_ok=True, size=None):
+    """random block of executable content (nested up to depth 3); every branch and instruction leaves a mark"""
+    n = size if size is not None else rng.randint(1, 4)
+    out = []
+    cnt = c08_block.cnt
+
+    def tag():
+        cnt[0] += 1
+        return "m%d" % cnt[0]
+
+    def vexpr():
+        r = rng.random()
+        if r < 0.3:
+            return expr("const", v=rng.randint(0, 4))
+        if r < 0.6:
+            return expr("var", rng.choice(["x", "y"]))
+        if r < 0.9:
+            return expr("inc", rng.choice(["x", "y"]))
+        return expr("var", "undeclared")
+
+    def cexpr():
+        r = rng.random()
+        if r < 0.15:
+            return cond("true")
+        if r < 0.3:
+            return cond("false")
+        return cond(rng.choice(["lt", "ge", "eq"]), n=rng.choice(["x", "y"]), v=rng.randint(0, 3))
+
+    for _ in range(n):
+        r = rng.random()
+        if r < 0.2:
+            out.append(mark(tag(), expr("var", "x"), expr("var", "y")))
+        elif r < 0.35:
+            out.append(assign(rng.choice(["x", "y", "x", "y", "undeclared"]), vexpr()))
+        elif r < 0.45:
+            out.append(raise_(rng.choice(["q1", "q2"])))
+        elif r < 0.52:
+            out.append(ins("send", ev=[rng.choice(["q1", "q3"])]))
+        elif r < 0.6:
+            out.append(ins(rng.choice(["log", "script"]), e=[vexpr()]))
+        elif r < 0.85 and depth < 3:
+            nb = rng.randint(1, 3)
+            br = [{"c": cexpr(), "blk": [mark(tag())] + c08_block(rng, depth + 1, err_ok, rng.randint(0, 2))} for _ in range(nb)]
+            els = [mark(tag())] + c08_block(rng, depth + 1, err_ok, rng.randint(0, 2)) if rng.random() < 0.6 else 0
+            out.append(ins("if", br=br, els=els))
+        elif depth < 3:
+            item = rng.choice(["it", "x"])
+            if rng.random() < 0.12:
+                out.append(ins("foreach", e=[rng.choice([expr("err"), expr("const", v=5), expr("var", "undeclared")])],
+                               n="it", blk=[mark(tag())]))
+                out.append(mark(tag()))
+                continue
+            out.append(ins("foreach", arr=[rng.randint(0, 3) for _ in range(rng.randint(0 if item == "it" else 1, 3))], n=item,
+                           blk=[mark(tag(), expr("var", "x"))] + c08_block(rng, depth + 1, err_ok, rng.randint(0, 2))))
+        else:
+            out.append(mark(tag()))
+        out.append(mark(tag()))
+    return out
+
+
+c08_block.cnt = [0]
+
+
+def inject_errors(block, positions):
+    """copies of `block` with an ERR at one expression position each (positions: generator of paths)"""
+    import copy
+    res = []
+    sites = []
+
+    def walk(b, path):
+        for i, it in enumerate(b):
+            p = path + [i]
+            if it["op"] in ("assign", "log", "script") or (it["op"] == "mark" and it["e"]):
+                sites.append((p, "e"))
+            if it["op"] == "send":
+                sites.append((p, "send"))
+            if it["op"] == "if":
+                for k, brn in enumerate(it["br"]):
+                    sites.append((p + ["br", k], "c"))
+                    walk(brn["blk"], p + ["br", k, "blk"])
+                if it["els"]:
+                    walk(it["els"], p + ["els"])
+            if it["op"] == "foreach":
+                walk(it["blk"], p + ["blk"])
+
+    walk(block, [])
+    for (p, kind) in sites:
+        b = copy.deepcopy(block)
+        node = b
+        for step in p:
+            node = node[step]
+        if kind == "e":
+            node["e"] = [expr("err")] + node["e"][1:]
+        elif kind == "send":
+            node["e"] = [expr("err")]
+        else:
+            node["c"] = cond("err")
+        res.append(b)
+    return res
+
+
+def c08_docs(rng, count, with_errors=True, dm="rfsm-expression", max_variants=6):
+    """documents whose onentry / onexit / transition / initial / history-default bodies are random blocks;
+    for each base document variants with an ERR injected at one expression position of one block"""
+    docs = []
+    for di in range(count):
+        c08_block.cnt[0] = 0
+        blocks = {k: c08_block(rng) for k in ("en_a", "ex_a", "t1", "t2", "en_b", "init_c", "hdef")}
+
+        def build(bl, name):
+            a, b = S("a"), S("b")
+            c1, c2 = S("c1"), S("c2")
+            h = H("h")
+            c = S("c", h, c1, c2)
+            h.t(None, c2, body=bl["hdef"])
+            c.initial = ("elem", Trans(tgt=[c1], body=bl["init_c"]))
+            a.onentry.append(bl["en_a"])
+            a.onentry.append([mark("en_a2", expr("var", "x"), expr("var", "y"))])   # a second block still runs
+            a.onexit.append(bl["ex_a"])
+            b.onentry.append(bl["en_b"])
+            a.t("e1", b, body=bl["t1"])
+            a.t("e2", None, body=bl["t2"])
+            b.t("e1", c)
+            b.t("e2", h)
+            c.t("e1", a)
+            c1.t("e2", c2)
+            return Doc(ROOT(a, b, c), vars_={"x": 0, "y": 1}, family="c08", name=name, alphabet=["e1", "e2"], dm=dm)
+
+        docs.append(build(blocks, "c08-%s-%d" % (dm[:4], di)))
+        if with_errors:
+            for k in blocks:
+                vs = inject_errors(blocks[k], None)
+                for vi, v in enumerate(vs[:max_variants]):
+                    bl = dict(blocks)
+                    bl[k] = v
+                    docs.append(build(bl, "c08-%s-%d-err-%s-%d" % (dm[:4], di, k, vi)))
+    return docs
+
+
+def null_docs():
+    """datamodel="null": no scripting, but <raise>, <send>, <if cond="In(..)"> still are executable content"""
+    docs = []
+    a, b, c = S("a"), S("b"), S("c")
+    a.onentry.append([raise_("r1")])
+    a.t("r1", b, body=[raise_("r2"), ins("send", ev=["r3"])])
+    b.t("r2", c)
+    c.t("r3", a)
+    c.t("e1", b)
+    b.t("e1", a)
+    docs.append(Doc(ROOT(a, b, c), dm="null", auto_marks=False, guards=False, family="null", name="null-raise",
+                    alphabet=["e1", "zz"]))
+    p1, p2, q1, q2 = S("p1"), S("p2"), S("q1"), S("q2")
+    par = P("par", S("rp", p1, p2), S("rq", q1, q2))
+    tmp = Doc(ROOT(par))
+    p1.t("e1", p2, body=[ins("if", br=[{"c": cond("in", s=tmp.ids["q2"]), "blk": [raise_("inq2")]}], els=[raise_("notinq2")])])
+    q1.t("e1", q2)
+    q2.t("inq2", q1)
+    q1.t("notinq2", None, body=[raise_("r9")])
+    p2.t("e2", p1)
+    docs.append(Doc(ROOT(par), dm="null", auto_marks=False, guards=False, family="null", name="null-if-in",
+                    alphabet=["e1", "e2"]))
     return docs
 
 
